@@ -23,7 +23,7 @@ def sh(cmd, **kw):
 
 def main():
     a = sys.argv[1:]
-    src, sid = a[0], a[1]
+    src, sid = os.path.abspath(a[0]), a[1]
     checks = []
     tier = "quick"
     verify = "--no-verify" not in a
@@ -81,7 +81,8 @@ def main():
         dst = os.path.join(VERIF, "seeded", sid)
         os.makedirs(dst, exist_ok=True)
         for f in ("patch.diff", "demo.py"):
-            shutil.copy(os.path.join(src, f), os.path.join(dst, f))
+            if os.path.abspath(os.path.join(src, f)) != os.path.abspath(os.path.join(dst, f)):
+                shutil.copy(os.path.join(src, f), os.path.join(dst, f))
         prev = {}
         if os.path.exists(os.path.join(dst, "meta.json")):
             try:
